@@ -31,6 +31,8 @@ RULE = (
     "the class 'incompatible' (TypeError expected). Distinct = distinct case "
     "hash; non-trivial = supported case whose array has at least one labeled "
     "and one missing entry and (family, sentinel) != (float, NaN).")
+RULE += (" Further generated dimensions (added while closing seeded "
+         "changes): " + 'infinite float labels; the encoder also fitted on the labeled part only before transform / inverse_transform of the full array; encoder object re-used after set_params' + ".")
 ASSUMPTIONS = [
     "labels are finite numbers (NaN only as the sentinel), short strings "
     "without NUL characters, or None (object arrays only)",
